@@ -2,44 +2,29 @@ package git
 
 // Verification harnesses for C26 (overlay-injected; never committed to /repo):
 // the worktreeFilesystem wrapper, its path predicate and the checkout
-// materialisation sequence never reach outside the worktree or into .git.
+// materialisation / removal sequences never reach outside the worktree or
+// into .git.
 
 import (
+	"io/fs"
+	"os"
+	"strings"
+	"time"
+
+	"github.com/go-git/go-billy/v6"
+
+	"github.com/go-git/go-git/v6/config"
 	"github.com/go-git/go-git/v6/internal/verifc26"
+	"github.com/go-git/go-git/v6/internal/veriffs"
 	"github.com/go-git/go-git/v6/internal/verifrt"
+	"github.com/go-git/go-git/v6/plumbing"
+	"github.com/go-git/go-git/v6/plumbing/filemode"
+	"github.com/go-git/go-git/v6/plumbing/object"
 )
 
-// non-ASCII atoms: HFS+-ignorable code points (ZWNJ, BOM, RLM, NOMINAL DIGIT
-// SHAPES), a byte that is never valid UTF-8, a truncated 3-byte sequence.
-// Free bytes are ASCII (the library's Unicode tables are not searched
-// symbolically); the tiers use the first POOL entries.
-var verifC26Pool = []string{"\xe2\x80\x8c", "\xef\xbb\xbf", "\xff", "\xe2\x80", "\xe2\x80\x8f", "\xe2\x81\xaf"}
+// ---------- H1: the path predicate ----------
 
-// verifC26Path: KMIN..K fully symbolic ASCII bytes with up to NA non-ASCII
-// atoms inserted at solver-chosen positions.
-func verifC26Path() string {
-	k := verifrt.Range(verifrt.Param("KMIN"), verifrt.Param("K"))
-	b := verifrt.NondetBytes(k)
-	for i := range b {
-		verifrt.Assume(b[i] < 0x80)
-	}
-	p := string(b)
-	na := verifrt.Range(0, verifrt.Param("NA"))
-	for j := 0; j < na; j++ {
-		pos := verifrt.Range(0, len(p))
-		lit := verifrt.Range(0, verifrt.Param("POOL")-1)
-		p = p[:pos] + verifC26Pool[lit] + p[pos:]
-	}
-	return p
-}
-
-// H1: the path predicate. validPath(p) == nil  =>  p cannot leave the
-// worktree or enter .git on a POSIX file system, nor on NTFS when
-// core.protectNTFS is on, nor on HFS+ when core.protectHFS is on (first and
-// non-final components; a final ".git" below the root is the documented
-// submodule-gitfile exemption).
-func VerifHarness_C26_validpath() {
-	p := verifC26Path()
+func verifC26CheckValidPath(p string) {
 	ntfs := verifrt.NondetBool()
 	hfs := verifrt.NondetBool()
 	sfs := newWorktreeFilesystem(nil, ntfs, hfs)
@@ -50,4 +35,499 @@ func VerifHarness_C26_validpath() {
 	verifrt.Reach("c26-validpath-accepted")
 	unsafe := verifrt.MergeBool(func() bool { return verifc26.Unsafe(p, ntfs, hfs, verifc26.GuardLeading) })
 	verifrt.Assert(!unsafe, "c26-validpath-accepted-path-stays-inside")
+}
+
+// validPath(p) == nil  =>  p cannot leave the worktree or enter .git on a
+// POSIX file system, nor on NTFS when core.protectNTFS is on, nor on HFS+
+// when core.protectHFS is on (first and non-final components; a final ".git"
+// below the root is the documented submodule-gitfile exemption).
+// p: fully symbolic ASCII bytes + non-ASCII atoms.
+func VerifHarness_C26_validpath() { verifC26CheckValidPath(verifc26.GenFree()) }
+
+// Same obligation; p = context + symbolic head + a ".git" spelling + symbolic
+// tail + context, which reaches the long disguises (".git . :x", "git~1 ",
+// HFS+-ignorable code points inside the name) in every path position.
+func VerifHarness_C26_validpath_lit() { verifC26CheckValidPath(verifc26.GenLit(verifc26.DotGitLits)) }
+
+// validSymlinkName(name) == nil  =>  creating a symlink called name does not
+// plant a ".gitmodules" symlink on POSIX / NTFS (protectNTFS) / HFS+
+// (protectHFS) (git: verify_path_internal with S_ISLNK).
+func VerifHarness_C26_symlinkname() {
+	p := verifc26.GenLit(verifc26.DotGitmodulesLits)
+	for i := 0; i < len(p); i++ {
+		verifrt.Assume(p[i] != 0) // a file name is a C string
+	}
+	ntfs := verifrt.NondetBool()
+	hfs := verifrt.NondetBool()
+	sfs := newWorktreeFilesystem(nil, ntfs, hfs)
+	if sfs.validSymlinkName(p) != nil {
+		return
+	}
+	verifrt.Reach("c26-symlinkname-accepted")
+	unsafe := verifrt.MergeBool(func() bool { return verifc26.UnsafeSymlinkName(p, ntfs, hfs) })
+	verifrt.Assert(!unsafe, "c26-symlinkname-accepted-is-not-gitmodules")
+}
+
+// ---------- H2: wrapper footprint over a chaos file system ----------
+
+type verifC26Info struct {
+	name string
+	mode fs.FileMode
+}
+
+func (i verifC26Info) Name() string       { return i.name }
+func (i verifC26Info) Size() int64        { return 0 }
+func (i verifC26Info) Mode() fs.FileMode  { return i.mode }
+func (i verifC26Info) ModTime() time.Time { return time.Time{} }
+func (i verifC26Info) IsDir() bool        { return i.mode.IsDir() }
+func (i verifC26Info) Sys() any           { return nil }
+
+type verifC26Op struct {
+	name, path, arg string
+	symlink         bool // lstat only: the answer was "is a symlink"
+}
+
+// verifC26Chaos records every call that reaches it and answers every Lstat
+// nondeterministically: does not exist / is a symlink / is a directory.
+// Answers are independent per call (a superset of the consistent worlds).
+type verifC26Chaos struct {
+	billy.Filesystem // nil: any method not overridden below panics
+	ops              []verifC26Op
+}
+
+func (c *verifC26Chaos) rec(name, p, arg string) {
+	c.ops = append(c.ops, verifC26Op{name: name, path: p, arg: arg})
+}
+
+func (c *verifC26Chaos) Create(p string) (billy.File, error) { c.rec("create", p, ""); return nil, nil }
+func (c *verifC26Chaos) Open(p string) (billy.File, error)   { c.rec("open", p, ""); return nil, nil }
+func (c *verifC26Chaos) OpenFile(p string, _ int, _ fs.FileMode) (billy.File, error) {
+	c.rec("openfile", p, "")
+	return nil, nil
+}
+func (c *verifC26Chaos) Stat(p string) (os.FileInfo, error) {
+	c.rec("stat", p, "")
+	return verifC26Info{name: p}, nil
+}
+func (c *verifC26Chaos) Lstat(p string) (os.FileInfo, error) {
+	switch verifrt.Range(0, 2) {
+	case 0:
+		c.ops = append(c.ops, verifC26Op{name: "lstat", path: p})
+		return nil, os.ErrNotExist
+	case 1:
+		c.ops = append(c.ops, verifC26Op{name: "lstat", path: p, symlink: true})
+		return verifC26Info{name: p, mode: fs.ModeSymlink | 0o777}, nil
+	}
+	c.ops = append(c.ops, verifC26Op{name: "lstat", path: p})
+	return verifC26Info{name: p, mode: fs.ModeDir | 0o755}, nil
+}
+func (c *verifC26Chaos) Remove(p string) error        { c.rec("remove", p, ""); return nil }
+func (c *verifC26Chaos) Rename(from, to string) error { c.rec("rename", from, to); return nil }
+func (c *verifC26Chaos) ReadDir(p string) ([]fs.DirEntry, error) {
+	c.rec("readdir", p, "")
+	return nil, nil
+}
+func (c *verifC26Chaos) Symlink(target, link string) error { c.rec("symlink", link, target); return nil }
+func (c *verifC26Chaos) Readlink(p string) (string, error) { c.rec("readlink", p, ""); return "", nil }
+func (c *verifC26Chaos) MkdirAll(p string, _ fs.FileMode) error {
+	c.rec("mkdirall", p, "")
+	return nil
+}
+func (c *verifC26Chaos) Chroot(p string) (billy.Filesystem, error) {
+	c.rec("chroot", p, "")
+	return c, nil
+}
+func (c *verifC26Chaos) TempFile(dir, prefix string) (billy.File, error) {
+	c.rec("tempfile", dir, prefix)
+	return nil, nil
+}
+
+// concrete argument pool (H1 covers the predicate over symbolic strings; this
+// harness is about which argument each method validates, with which variant,
+// and what it does with the Lstat answers). The tiers use the first PATHS.
+var verifC26Paths = []string{
+	"a", "a/b", "a/b/c", "", ".git/x", "a/.git", "a/../b", "/a/b", "a/b/", ".gitmodules",
+	".", "/", ".git", "a/.git/x", "..", "a//b", "a\\b/c", "a/.GITMODULES", "a/.git /x", "a/.g\xe2\x80\x8cit/x",
+	"con", "a/git~1", "a/b/.gitmodules", "git~1/x", "a/.gitmodules ./b",
+}
+
+var verifC26WrapperOps = []string{"create", "open", "openfile", "stat", "lstat", "remove", "rename", "readdir", "symlink", "readlink", "mkdirall", "chroot", "tempfile"}
+
+func verifC26IsRoot(p string) bool { return p == "" || p == "." || p == "/" }
+
+// proper ancestor directories of p as the host (Linux: '/' separates) names
+// them, shallowest first
+func verifC26Ancestors(p string) []string {
+	cs := verifc26.Split(p, false)
+	var out []string
+	cur := ""
+	if strings.HasPrefix(p, "/") {
+		cur = "/"
+	}
+	for i := 0; i+1 < len(cs); i++ {
+		if cur != "" && cur != "/" {
+			cur += "/"
+		}
+		cur += cs[i]
+		out = append(out, cur)
+	}
+	return out
+}
+
+func verifC26IsAncestor(a, p string) bool {
+	for _, x := range verifC26Ancestors(p) {
+		if x == a {
+			return true
+		}
+	}
+	return false
+}
+
+// Every wrapper method with every argument of the pool, protectNTFS /
+// protectHFS free, every combination of Lstat answers: whatever reaches the
+// underlying file system was handed over unchanged, names a path the landing
+// model calls safe, has had every proper ancestor directory probed, and no
+// probe said "symlink".
+func VerifHarness_C26_wrapper() {
+	ntfs := verifrt.Range(0, 1) == 1
+	hfs := verifrt.Range(0, 1) == 1
+	chaos := &verifC26Chaos{}
+	sfs := newWorktreeFilesystem(chaos, ntfs, hfs)
+	op := verifC26WrapperOps[verifrt.Range(0, len(verifC26WrapperOps)-1)]
+	p := verifC26Paths[verifrt.Range(0, verifrt.Param("PATHS")-1)]
+	q := "" // second path argument (rename destination)
+	args := []string{p}
+	switch op {
+	case "create":
+		_, _ = sfs.Create(p)
+	case "open":
+		_, _ = sfs.Open(p)
+	case "openfile":
+		_, _ = sfs.OpenFile(p, os.O_WRONLY|os.O_CREATE, 0o644)
+	case "stat":
+		_, _ = sfs.Stat(p)
+	case "lstat":
+		_, _ = sfs.Lstat(p)
+	case "remove":
+		_ = sfs.Remove(p)
+	case "rename":
+		q = verifC26Paths[verifrt.Range(0, verifrt.Param("PATHS2")-1)]
+		args = append(args, q)
+		_ = sfs.Rename(p, q)
+	case "readdir":
+		_, _ = sfs.ReadDir(p)
+	case "symlink":
+		_ = sfs.Symlink("../../outside", p)
+	case "readlink":
+		_, _ = sfs.Readlink(p)
+	case "mkdirall":
+		_ = sfs.MkdirAll(p, 0o755)
+	case "chroot":
+		_, _ = sfs.Chroot(p)
+	case "tempfile":
+		_, _ = sfs.TempFile(p, "x")
+	}
+	readSide := op == "open" || op == "stat" || op == "lstat" || op == "readdir" || op == "readlink" || op == "chroot"
+
+	// split the log into ancestor probes and the operation proper
+	var probes, final []verifC26Op
+	for _, o := range chaos.ops {
+		if o.name == "lstat" && !((op == "lstat" || op == "chroot") && o.path == p) {
+			probes = append(probes, o)
+		} else {
+			final = append(final, o)
+		}
+	}
+
+	// a probe below a directory that (another) probe reports as a symlink
+	// reads through that symlink
+	probeThroughLink := false
+	for _, a := range probes {
+		for _, b := range probes {
+			if a.symlink && verifC26IsAncestor(a.path, b.path) {
+				probeThroughLink = true
+			}
+		}
+	}
+	verifrt.Known("C26-lstat-probe-below-symlink", probeThroughLink)
+	verifrt.Assert(!probeThroughLink, "c26-wrapper-no-probe-below-a-symlink")
+
+	if len(final) == 0 {
+		return
+	}
+	verifrt.Reach("c26-wrapper-call-reached-fs")
+	verifrt.Assert(op != "tempfile", "c26-wrapper-tempfile-unsupported")
+	if op == "mkdirall" {
+		verifrt.Assert(!verifC26IsRoot(p), "c26-wrapper-mkdirall-root-is-noop")
+	}
+
+	if op == "chroot" && len(final) == 1 && final[0].name == "lstat" && final[0].symlink {
+		// refused after looking at the final component: the Lstat itself
+		// still reached the file system, so its path is checked below
+		op = "lstat"
+	}
+
+	// exactly the requested operation, arguments unchanged
+	last := final[len(final)-1]
+	verifrt.Assert(last.name == op && last.path == p, "c26-wrapper-passes-argument-unchanged")
+	if op == "rename" {
+		verifrt.Assert(last.arg == q, "c26-wrapper-passes-argument-unchanged")
+	}
+	if op == "chroot" {
+		verifrt.Assert(len(final) == 2 && final[0].name == "lstat", "c26-wrapper-chroot-checks-final-component")
+		verifrt.Assert(!final[0].symlink, "c26-wrapper-chroot-refuses-symlink")
+	} else {
+		verifrt.Assert(len(final) == 1, "c26-wrapper-single-call")
+	}
+
+	for _, a := range args {
+		if readSide && verifC26IsRoot(a) {
+			continue // the worktree root itself
+		}
+		verifrt.Assert(!verifc26.Unsafe(a, ntfs, hfs, verifc26.GuardLeading), "c26-wrapper-reached-path-stays-inside")
+		for _, anc := range verifC26Ancestors(a) {
+			seen := false
+			for _, o := range probes {
+				if o.path == anc {
+					seen = true
+				}
+			}
+			verifrt.Assert(seen, "c26-wrapper-every-ancestor-probed")
+		}
+	}
+	for _, o := range probes {
+		verifrt.Assert(!o.symlink, "c26-wrapper-no-call-below-a-symlink")
+	}
+	if op == "symlink" {
+		verifrt.Assert(!verifc26.UnsafeSymlinkName(p, ntfs, hfs), "c26-wrapper-no-gitmodules-symlink")
+	}
+}
+
+// ---------- H5: checkout / removal sequences over a real symlink world ----------
+
+// verifC26Guard sits between the wrapper and the in-memory file system and
+// looks at the state at the moment of every call: does the path run through a
+// symlinked directory, does the operation follow a final symlink.
+type verifC26Guard struct {
+	billy.Filesystem // the chrooted *veriffs.FS
+	nodes            map[string]*veriffs.Node
+	root             string
+	leadThrough      []string // non-lstat calls through a symlinked directory
+	lstatThrough     []string // lstat calls through a symlinked directory
+	finalFollowed    []string // calls that follow a symlink in the final component
+}
+
+func (g *verifC26Guard) check(op, p string, follows bool) {
+	cs := verifc26.Split(p, false)
+	cur := g.root
+	for i, c := range cs {
+		cur += "/" + c
+		n := g.nodes[cur]
+		if n == nil || n.Mode&fs.ModeSymlink == 0 {
+			continue
+		}
+		if i < len(cs)-1 {
+			if op == "lstat" {
+				g.lstatThrough = append(g.lstatThrough, p)
+			} else {
+				g.leadThrough = append(g.leadThrough, op+" "+p)
+			}
+		} else if follows {
+			g.finalFollowed = append(g.finalFollowed, op+" "+p)
+		}
+		return
+	}
+}
+
+func (g *verifC26Guard) Create(p string) (billy.File, error) {
+	g.check("create", p, true)
+	return g.Filesystem.Create(p)
+}
+func (g *verifC26Guard) Open(p string) (billy.File, error) {
+	g.check("open", p, true)
+	return g.Filesystem.Open(p)
+}
+func (g *verifC26Guard) OpenFile(p string, flag int, perm fs.FileMode) (billy.File, error) {
+	g.check("openfile", p, true)
+	return g.Filesystem.OpenFile(p, flag, perm)
+}
+func (g *verifC26Guard) Stat(p string) (os.FileInfo, error) {
+	g.check("stat", p, true)
+	return g.Filesystem.Stat(p)
+}
+func (g *verifC26Guard) Lstat(p string) (os.FileInfo, error) {
+	g.check("lstat", p, false)
+	return g.Filesystem.Lstat(p)
+}
+func (g *verifC26Guard) Remove(p string) error {
+	g.check("remove", p, false)
+	return g.Filesystem.Remove(p)
+}
+func (g *verifC26Guard) Rename(from, to string) error {
+	g.check("rename", from, false)
+	g.check("rename", to, false)
+	return g.Filesystem.Rename(from, to)
+}
+func (g *verifC26Guard) ReadDir(p string) ([]fs.DirEntry, error) {
+	g.check("readdir", p, true)
+	return g.Filesystem.ReadDir(p)
+}
+func (g *verifC26Guard) Symlink(target, link string) error {
+	g.check("symlink", link, false)
+	return g.Filesystem.Symlink(target, link)
+}
+func (g *verifC26Guard) Readlink(p string) (string, error) {
+	g.check("readlink", p, false)
+	return g.Filesystem.Readlink(p)
+}
+func (g *verifC26Guard) MkdirAll(p string, perm fs.FileMode) error {
+	g.check("mkdirall", p, true)
+	return g.Filesystem.MkdirAll(p, perm)
+}
+func (g *verifC26Guard) Chroot(p string) (billy.Filesystem, error) {
+	g.check("chroot", p, true)
+	return g.Filesystem.Chroot(p)
+}
+
+// what may be planted in the worktree before the operation
+var verifC26PlantAt = []string{"s", "d/s", "d"}
+var verifC26LinkTo = []string{"../outside", ".git", "/outside/secret", ".git/config", "keepdir", "../outside/secret"}
+
+// entry names the operation is asked to materialise / remove
+var verifC26Names = []string{"s", "s/x", "d/s", "d/s/x", "s/config", "d/s/config"}
+
+func verifC26Plant(base *veriffs.FS) {
+	n := verifrt.Range(0, verifrt.Param("PLANTS"))
+	for i := 0; i < n; i++ {
+		at := "/wt/" + verifC26PlantAt[verifrt.Range(0, len(verifC26PlantAt)-1)]
+		if base.Nodes[at] != nil {
+			continue
+		}
+		if strings.HasPrefix(at, "/wt/d/") {
+			if d := base.Nodes["/wt/d"]; d == nil {
+				base.Nodes["/wt/d"] = &veriffs.Node{Dir: true, Mode: fs.ModeDir | 0o755}
+			} else if !d.Dir {
+				continue
+			}
+		}
+		switch k := verifrt.Range(0, verifrt.Param("LINKS")+1); k {
+		case 0:
+			base.Nodes[at] = &veriffs.Node{Dir: true, Mode: fs.ModeDir | 0o755}
+		case 1:
+			base.Nodes[at] = &veriffs.Node{Data: []byte("old"), Mode: 0o644}
+		default:
+			base.Nodes[at] = &veriffs.Node{Mode: fs.ModeSymlink | 0o777, Link: verifC26LinkTo[k-2]}
+		}
+	}
+}
+
+func verifC26Protected(k string) bool {
+	return !strings.HasPrefix(k, "/wt/") || k == "/wt/.git" || strings.HasPrefix(k, "/wt/.git/")
+}
+
+type verifC26Snap struct {
+	node *veriffs.Node
+	data string
+	link string
+	mode fs.FileMode
+	dir  bool
+}
+
+func verifC26Snapshot(base *veriffs.FS) map[string]verifC26Snap {
+	out := map[string]verifC26Snap{}
+	for k, n := range base.Nodes {
+		if verifC26Protected(k) {
+			out[k] = verifC26Snap{node: n, data: string(n.Data), link: n.Link, mode: n.Mode, dir: n.Dir}
+		}
+	}
+	return out
+}
+
+func verifC26Unchanged(base *veriffs.FS, snap map[string]verifC26Snap) bool {
+	count := 0
+	for k, n := range base.Nodes {
+		if !verifC26Protected(k) {
+			continue
+		}
+		count++
+		s, ok := snap[k]
+		if !ok || s.node != n || s.data != string(n.Data) || s.link != n.Link || s.mode != n.Mode || s.dir != n.Dir {
+			return false
+		}
+	}
+	return count == len(snap)
+}
+
+// A worktree at /wt with a repository in /wt/.git and files outside; up to
+// PLANTS pre-planted directories / files / symlinks (into .git, outside the
+// worktree, or harmless) at s, d, d/s; then one of the real sequences:
+// checkoutFile (regular file, symlink), the submodule-insert sequence
+// (clearBlockingSymlinks + MkdirAll), rmFileAndDirsIfEmpty, Chroot + Create.
+// Afterwards: nothing outside the worktree or under .git was created,
+// changed or removed; no call ran through a symlinked directory; no call
+// followed a symlink in the final component.
+func VerifHarness_C26_flows() {
+	base := veriffs.New()
+	base.Put("/outside/secret", []byte("S"))
+	base.Put("/wt/.git/config", []byte("C"))
+	base.Put("/wt/.git/modules/m/HEAD", []byte("H"))
+	base.Put("/wt/keepdir/keep", []byte("K"))
+	verifC26Plant(base)
+	snap := verifC26Snapshot(base)
+
+	sub, err := base.Chroot("/wt")
+	verifrt.Assert(err == nil, "c26-flow-setup")
+	g := &verifC26Guard{Filesystem: sub, nodes: base.Nodes, root: "/wt"}
+	sfs := newWorktreeFilesystem(g, true, true)
+	w := &Worktree{filesystem: sfs}
+	name := verifC26Names[verifrt.Range(0, verifrt.Param("NAMES")-1)]
+
+	mkfile := func(mode filemode.FileMode, content string) *object.File {
+		o := &plumbing.MemoryObject{}
+		o.SetType(plumbing.BlobObject)
+		_, _ = o.Write([]byte(content))
+		blob := &object.Blob{}
+		verifrt.Assert(blob.Decode(o) == nil, "c26-flow-setup")
+		return object.NewFile(name, mode, blob)
+	}
+
+	var ferr error
+	flow := verifrt.Param("FLOW") // -1: every sequence
+	if flow < 0 {
+		flow = verifrt.Range(0, 4)
+	}
+	switch flow {
+	case 0:
+		ferr = w.checkoutFile(config.NewConfig(), sfs, mkfile(filemode.Regular, "new"))
+	case 1:
+		ferr = w.checkoutFile(config.NewConfig(), sfs, mkfile(filemode.Symlink, "../outside/secret"))
+	case 2:
+		// checkoutChangeSubmodule, merkletrie.Insert (the part before the index update)
+		ferr = w.clearBlockingSymlinks(sfs, name)
+		if ferr == nil {
+			ferr = sfs.MkdirAll(name, 0o755)
+		}
+	case 3:
+		ferr = rmFileAndDirsIfEmpty(sfs, name)
+	case 4:
+		// Submodule.Repository: scope a sub-filesystem, write its gitfile
+		var c billy.Filesystem
+		c, ferr = sfs.Chroot(name)
+		if ferr == nil {
+			var f billy.File
+			f, ferr = c.Create(".git")
+			if ferr == nil {
+				_, _ = f.Write([]byte("gitdir: x\n"))
+				_ = f.Close()
+			}
+		}
+	}
+	_ = ferr
+
+	verifrt.Reach("c26-flow-done")
+	verifrt.Known("C26-lstat-probe-below-symlink", len(g.lstatThrough) > 0)
+	verifrt.Assert(len(g.lstatThrough) == 0, "c26-flow-no-probe-below-a-symlink")
+	verifrt.Assert(len(g.leadThrough) == 0, "c26-flow-no-call-through-symlinked-directory")
+	verifrt.Assert(len(g.finalFollowed) == 0, "c26-flow-no-final-symlink-followed")
+	verifrt.Assert(verifC26Unchanged(base, snap), "c26-flow-outside-and-dotgit-untouched")
 }
